@@ -121,8 +121,11 @@ def normalise_result(text, result):
 
 class Pipe(object):
     def __init__(self, w, g90e=False, enter=None, exit_=None, extended=None, arc_stub=True, arc_samples=2,
-                 summarise=True, track_p=True, plugin=None):
+                 summarise=True, track_p=True, plugin=None, fmt_fork=False):
         self.w = w
+        if w.symbolic:
+            from symx import values as _v
+            _v.FMT_FORK[0] = fmt_fork
         env = w.env
         self.plugin = plugin
         if plugin is not None:
